@@ -47,7 +47,7 @@ def sig_detail(name, scen_events, at):
     return ""
 
 
-def run_profiles(ctx, binary, plan, procs=8):
+def run_profiles(ctx, binary, plan, procs=16):
     """plan: list of (profile, n). Runs `procs` harness processes in parallel; returns trace paths."""
     jobs = []
     k = 0
@@ -105,7 +105,7 @@ def account(ctx, trace, nontrivial_fn=None):
     return stats
 
 
-def run_stage(ctx, prefixes, plan, nontrivial_fn=None, procs=8):
+def run_stage(ctx, prefixes, plan, nontrivial_fn=None, procs=16):
     binary = vlib.go_build("cluster")
     traces = run_profiles(ctx, binary, plan, procs=procs)
     trace = merge(ctx, traces, "cluster-trace.ndjson")
